@@ -483,6 +483,17 @@ pub mod rewrite {
     {
       return None;
     }
+    // A keyword (`match`, `if`, `let`, ...) has the shape of a name but is not read back as one.
+    let mut scratch_error_set = ErrorSet::new();
+    let (_, parsed_new_name) = samlang_parser::parse_source_expression_from_text(
+      trimmed_new_name,
+      *module_reference,
+      &mut state.heap,
+      &mut scratch_error_set,
+    );
+    if scratch_error_set.has_errors() || !matches!(parsed_new_name, expr::E::LocalId(_, _)) {
+      return None;
+    }
     let def_or_use_loc =
       match state_searcher_utils::search_at_pos(state, module_reference, position, false) {
         Some(location_cover::LocationCoverSearchResult::TypedName(loc, _, _)) => loc,
@@ -497,7 +508,7 @@ pub mod rewrite {
     let renamed = variable_definition::apply_renaming(
       module,
       &def_and_uses,
-      state.heap.alloc_string(new_name.to_string()),
+      state.heap.alloc_string(trimmed_new_name.to_string()),
     );
     Some(samlang_printer::pretty_print_source_module(&state.heap, 100, &renamed))
   }
